@@ -56,6 +56,39 @@ def run(ctx, report):
         elif len(pcalls) > 1:
             why = "several parser calls"
         report.check("IMPORT", name + "/parse", good_parse, "%s parses the whole parameter with the %s library's secret-key parser" % (name, lib), "%s: %s" % (name, why), fn=f.path, sp=f.span, config=cfg)
+        # nothing but the library parser decides acceptance: the parser runs on every path and
+        # every non-Ok result is the parser's own failure
+        if good_parse:
+            pb = pcalls[0][0].idx
+            extra = []
+            for bb, idx, e, node in ret_exprs(an):
+                es = strip(e)
+                if es.k == "agg" and es.a[0].endswith("Result::Ok"):
+                    continue
+                derived = any(x.k == "call" and x.site == pb and x.a[0].name in parsers for x in es.walk())
+                if g.dominates(pb, bb) and not derived:
+                    # `match parser(..) { Err(_) => Err(OUR_ERROR), .. }`: taken exactly when the parser failed
+                    for d, cond, allowed, alll in an.constraints_at(bb):
+                        if cond.k == "discr" and allowed and allowed <= {"Err", "Break", "None"} and any(x.k == "call" and x.site == pb and x.a[0].name in parsers for x in cond.walk()):
+                            derived = True
+                if not (g.dominates(pb, bb) and derived):
+                    # a rejection taken only when the length is not 32 is subsumed by the parser (both libraries' secret keys are exactly 32 bytes)
+                    import guards
+                    from rules.typestate import const_int
+                    adm = [(0, guards.INF)]
+                    for d, cond, allowed, alll in an.constraints_at(bb):
+                        r = guards.constraint_set(cond, allowed, const_int, strip)
+                        if r is not None:
+                            q = strip(r[0])
+                            if q.k == "call" and q.a[0].name == "len" and q.a[1] and strip(q.a[1][0]).k == "param" and strip(q.a[1][0]).a[0] == 1:
+                                adm = guards.intersect(adm, r[1])
+                    if not any(lo <= 32 <= hi for lo, hi in adm):
+                        continue
+                    extra.append(getattr(node, "sp", None))
+            report.check("IMPORT", name + "/only-parser-rejects", not extra,
+                         "%s fails only where the %s parser fails (every error result is the parser's, and no path returns before parsing)" % (name, lib),
+                         "%s has a rejection that does not come from the %s secret-key parser (at %s): valid secrets can be refused" % (name, lib, extra),
+                         fn=f.path, sp=f.span, config=cfg)
         # Ok value = that parsed key in the right variant
         for bb, es, node in ok_sites:
             v = strip(es.a[1]["0"])
